@@ -212,13 +212,24 @@ class FakeProcess:
         self.started = True
 
     def _check(self):
+        """one POLL of the parent = one scheduling point (workers may move before it) + one pCheck event + one snapshot of the
+        exit codes.  All reads inside one call of a process predicate (one_failed / one_is_alive / all_exited / all_are_alive:
+        wrapped by run_with) share the snapshot - a loop over the processes returns what an atomic look at some moment of its
+        execution returns, because a worker only ever goes from running to exited; a read outside such a call is a poll of its own.
+        Between two polls of one handler run the workers move: the handler is not atomic."""
         g = W.cur()
         if g.snapshot is None:
             W.tick()
             W.let_workers_run(g)
-            g.events.append({"e": "pCheck"})
+            ev = {"e": "pCheck"}
+            if W.poll_name:
+                ev["pred"] = W.poll_name
+            g.events.append(ev)
             g.snapshot = [p.code for p in g.procs]
-        return g.snapshot
+        snap = g.snapshot
+        if W.poll_name is None:
+            g.snapshot = None
+        return snap
 
     def is_alive(self):
         if self.stopped:
@@ -228,8 +239,7 @@ class FakeProcess:
 
     @property
     def exitcode(self):
-        """what the parent sees: the liveness snapshot taken at its check after a timeout (one scheduling point, one pCheck event,
-        shared by all exitcode / is_alive reads until the next get)"""
+        """what the parent sees at this poll (see _check)"""
         if self.stopped or W.cur().outcome == "joined":
             return self.code
         return self._check()[self.index]
@@ -270,8 +280,30 @@ def run_with(realign_module, world, fn):
     """run fn() with `realign_module.mp` replaced by the fake; returns (result kind, payload)"""
     global W
     W = world
+    W.poll_name = None
     old = realign_module.mp
     realign_module.mp = FakeMP
+    # every call of a process predicate is ONE poll: begin a fresh snapshot, name the poll, end it afterwards
+    wrapped = {}
+
+    def wrap(name, pred_fn):
+        def poll(*a, **k):
+            g = W.cur() if W.groups else None
+            if g is not None:
+                g.snapshot = None
+            W.poll_name = name
+            try:
+                return pred_fn(*a, **k)
+            finally:
+                W.poll_name = None
+                if W.groups:
+                    W.cur().snapshot = None
+        return poll
+    for name in ("one_failed", "one_is_alive", "all_exited", "all_are_alive"):
+        pred = getattr(realign_module, name, None)
+        if callable(pred):
+            wrapped[name] = pred
+            setattr(realign_module, name, wrap(name, pred))
     # exitcode reads in all_exited() must see the same snapshot as is_alive(): wrap through a property-like view
     try:
         fn()
@@ -284,3 +316,5 @@ def run_with(realign_module, world, fn):
         return ("crash", type(e).__name__ + ": " + str(e)[:200])
     finally:
         realign_module.mp = old
+        for name, fn in wrapped.items():
+            setattr(realign_module, name, fn)
